@@ -91,7 +91,7 @@ def draw_case(rng, fam, y_branch=None):
     return dict(kind="main", fam=fam, params=params, spot=spot, r=r, d=d, T=T, m=m, hist=draw_history(rng, T))
 
 
-REUSE_OPS = ["put", "call", "digital", "forward", "density", "cdf", "price_put", "price_call", "butterfly"]
+REUSE_OPS = ["put", "call", "digital", "forward", "density", "price_put", "butterfly"]
 
 
 def draw_history(rng, T):
@@ -466,7 +466,7 @@ def reuse_probe(ctx, B, heavy):
     """history probe: the property quantifies over all maturities of a model, so what ONE pricer object returns at a
     maturity must not depend on which maturities / products it priced before.  One COSPricer (one FFTPricer, one
     CFBlackScholes) prices strike vectors at 3 maturities in random order, one of them twice, with interleaved
-    put/call/digital/forward/density/cdf/price/butterfly calls; every result is compared with a fresh object's
+    put/call/digital/forward/density/price/butterfly calls; every result is compared with a fresh object's
     (bit-for-bit on the unchanged tree, tolerance 1e-12*spot) and the shape / closed-form oracles run on the reused
     object's outputs."""
     case, spot = B.case, B.spot
@@ -477,15 +477,18 @@ def reuse_probe(ctx, B, heavy):
     reused_fft = FFTPricer(B.model) if (hist.get("fft") and heavy) else None
     ctx.count("c18.cos.pricer_reuse", dict(base, hist=hist), nontrivial=True, branch=case["fam"])
     seen = []
+    fresh_cache = {}                              # a fresh object's value is history-free by construction: computed once per (T, op)
     for n, step in enumerate(hist["steps"]):
         t = step["T"]
-        Bt = Built(dict(base, T=t, m=9))          # fresh model + fresh pricer, used at this single maturity only
+        Bt = Built(dict(base, T=t, m=5))          # fresh model + fresh pricers, each used at this single maturity only
         K = Bt.K
         u = math.log(spot) + np.linspace(Bt.a, Bt.b, 7)[1:-1]
         got = {}
         for op in step["ops"]:
             r_val = _op(reused, op, K, t, u)
-            f_val = _op(COSPricer(Bt.model), op, K, t, u)
+            if (t, op) not in fresh_cache:
+                fresh_cache[(t, op)] = _op(COSPricer(Bt.model), op, K, t, u)
+            f_val = fresh_cache[(t, op)]
             got[op] = r_val
             sc = 1.0 if op in ("digital", "density", "cdf") else spot
             err = float(np.max(np.abs(r_val - f_val))) if np.all(np.isfinite(r_val)) else float("inf")
@@ -649,7 +652,7 @@ def run_case(ctx, case, rng, heavy=True):
 def run(ctx):
     import random
     rng = ctx.rng
-    per_family = ctx.n(7, 40)
+    per_family = ctx.n(6, 40)
     # defaults of every family first
     for fam in FAMS:
         case = dict(kind="main", fam=fam, params=dict(sigma=0.2) if fam == "bs" else {}, spot=100.0, r=0.02, d=0.01, T=1.0, m=21)
